@@ -70,7 +70,27 @@ def run(ctx):
     thorough = ctx.tier == "thorough"
     rnd = random.Random(ctx.seed)
     sh = shapes(thorough, rnd)
-    scen.run_family(ctx, sh, names=NAMES, allow=(), mc_invariants=["FailStopSafe", "CauseFaithful", "AtMostOnce", "CleanupBeforeEnd"], mc_properties=["FailStopLive"], per_shape=16 if thorough else 6, depth=40, label="c01")
+    # a payload whose CALL already raises (a plain callable failing before it returns its
+    # coroutine, wrong arguments, a run() that delegates) is a failing payload like any other
+    extra = []
+    for f in scen.FLAVS:
+        for how in ("exc:UserExc", "exc:LookupError", "base:UserBase"):
+            for reg in ("pre", "post", "service"):
+                pl = {"b1": {"flavour": "asyncio", "cleanup": 1}} if f != "asyncio" else {"b2": {"flavour": "trio", "cleanup": 1}}
+                sv = {}
+                script = [{"op": "adopt", "p": sorted(pl)[0]}]
+                if reg == "service":
+                    sv["f"] = {"flavour": f, "immediate": how}
+                    script += [{"op": "new_service", "s": "f"}, {"op": "accept"}, {"op": "wait_running"}]
+                else:
+                    pl["f"] = {"flavour": f, "immediate": how, "args": [1], "kwargs": {"k": 2}}
+                    if reg == "pre":
+                        script += [{"op": "adopt", "p": "f"}, {"op": "accept"}, {"op": "wait_running"}]
+                    else:
+                        script += [{"op": "accept"}, {"op": "wait_running"}, {"op": "adopt", "p": "f", "ctx": "thread"}]
+                script += [{"op": "wait_start", "p": "f"}, {"op": "wait_end", "timeout": 4.0}]
+                extra.append({"seed": ctx.seed, "jitter": 0.0, "payloads": pl, "services": sv, "script": script, "shape": "targeted-call-raises", "immediate_how": how})
+    scen.run_family(ctx, sh, names=NAMES, allow=(), extra_scenarios=extra, mc_invariants=["FailStopSafe", "CauseFaithful", "AtMostOnce", "CleanupBeforeEnd"], mc_properties=["FailStopLive"], per_shape=16 if thorough else 6, depth=40, label="c01")
     ctx.extra["rule"] = "shapes = failing flavour x failure kind (non-None value incl. falsy ones / Exception / BaseException / KeyboardInterrupt) x registration time (queued, adopted from a thread or from a payload of each flavour, service created before or after start) with bystanders of all flavours; per shape TLC-simulated behaviours projected to the controllable actions; distinct non-trivial = distinct (shape, sequence of starts/ends/cancellations/returns observed)"
     ctx.assumptions = [
         "no stop is requested from outside in these scenarios (a failure racing a shutdown is C12's subject)",
